@@ -60,13 +60,19 @@ func hashString(s string) uint64 {
 
 // Gen is the case writer.
 type Gen struct {
-	Tier     string
-	Thorough bool
-	R        *RNG
-	W        *bufio.Writer
-	N        int
-	Stats    map[string]int
-	Notes    []string
+	// PendingPath, when set, receives the description of the case that is about to be executed: a
+	// fatal error of the Go runtime inside the code under test (stack overflow from an unbounded
+	// recursion, out of memory) cannot be recovered in-process, and the check then names this case.
+	PendingPath string
+	pendFile    *os.File
+	pendLen     int
+	Tier        string
+	Thorough    bool
+	R           *RNG
+	W           *bufio.Writer
+	N           int
+	Stats       map[string]int
+	Notes       []string
 }
 
 // Line writes one protocol line.
@@ -82,6 +88,29 @@ func (g *Gen) Line(fields ...string) {
 }
 
 func (g *Gen) Count(k string) { g.Stats[k]++ }
+
+// Pending records the case that is about to be executed (see PendingPath).
+func (g *Gen) Pending(fields ...string) {
+	if g.PendingPath == "" {
+		return
+	}
+	if g.pendFile == nil {
+		f, err := os.Create(g.PendingPath)
+		if err != nil {
+			g.PendingPath = ""
+			return
+		}
+		g.pendFile = f
+	}
+	// one positional write per case: the record is padded with blanks to cover the previous one
+	b := []byte(strings.Join(fields, " "))
+	n := len(b)
+	for len(b) < g.pendLen {
+		b = append(b, ' ')
+	}
+	g.pendLen = n
+	_, _ = g.pendFile.WriteAt(append(b, '\n'), 0)
+}
 
 // failAfter is a writer that accepts n bytes and then fails: the code under test must report the error.
 type failAfter struct {
